@@ -18,7 +18,8 @@ META = {
         "inputs: lists of 2-6 parts; each part is a complete statement sequence that parses on its own and ends in a newline: G1 statements "
         "(blocks, decorators, multi-line strings/brackets), corpus statements, f-string statements (G7) and xonsh statements -- subprocess "
         "statements, $X assignments, call macros, with-macros (block and one-line form), subprocess macros, path literals (p, pf), help, "
-        "backticks, && / || lines.  Parts may end with blank/comment lines but never start with one.  Oracle (metamorphic, no reference parser "
+        "backticks, && / || lines; any part may also appear as the body of an if/for/def/while/class/with/else block (the next part then starts at a "
+        "DEDENT).  Parts may end with blank/comment lines but never start with one.  Oracle (metamorphic, no reference parser "
         "needed): parse(p1+...+pk).body equals, with positions, the concatenation of parse(pi).body shifted by the number of lines before pi "
         "(ast.increment_lineno), compared with astdiff.  non-trivial = some xonsh part is not last and is followed by a compound statement or "
         "another macro; distinct by text.  Histogram over ordered pairs of statement kinds."
@@ -118,6 +119,12 @@ def search(rec, ctx):
             k, s = "corpus", corp[rnd.randrange(len(corp))]
         else:
             k, s = "python", PyGen(rnd).stmt(0, "")
+        if rnd.random() < 0.15 and s.endswith("\n"):
+            # the same statement as the body of a block: what follows it starts with a DEDENT
+            head = rnd.choice(["if c:\n", "for i in j:\n", "def f():\n", "while t:\n", "class K:\n", "with m:\n", "if c:\n    pass\nelse:\n"])
+            ind = rnd.choice(["    ", "  ", "\t"])
+            s = head.replace("    ", ind) + "".join(ind + ln if ln.strip() else ln for ln in s.splitlines(keepends=True))
+            k = k if k in ("python", "corpus", "fstring") else k  # (the kind keeps naming what is inside)
         if rnd.random() < 0.2:
             s += rnd.choice(["\n", "# trailing comment\n", "\n\n", "   \n"])
         return k, s
